@@ -21,6 +21,7 @@ RULE = (
     "(products of Gaussians with a log-partition, products of categoricals, evidence circuits, integrals, "
     "concatenations, multi-output); conj(c) vs conj(ref c); real => same function as c; integral relation; "
     "conj(conj(c)) vs c; 4 flags; distinct = structure signature x semiring"
+    " Also: two rounds (in-place update between them); the same through PipelineContext.conjugate / pipeline.conjugate on operator results;"
 )
 EXHAUSTIVE_SUBSPACES = ["all complete assignments for discrete circuits with <= 128 assignments", "all 4 (fold, optimize) combinations (even cases)"]
 ASSUMPTIONS = ["reference interpreter vf/ref.py"]
